@@ -33,7 +33,8 @@ ENVS = ["tsp", "atsp", "cvrp", "sdvrp", "cvrptw", "svrp", "op", "pctsp", "spctsp
 ASSERTED = {"duplicate_visit", "missing_visit", "capacity", "capacity_linehaul", "capacity_backhaul", "time_window",
             "depot_deadline", "delivery_before_pickup", "max_length", "min_prize", "skill", "unserved_demand",
             "linehaul_after_backhaul", "distance_limit"}
-OPS = ["identity", "trim", "strip_tail", "reverse", "split_all", "merge", "drop", "dup", "swap", "move", "insert", "remove"]
+OPS = ["identity", "trim", "strip_tail", "revisit", "reverse", "split_all", "merge", "drop", "dup", "revisit_own_route", "swap",
+       "move", "insert", "remove"]
 
 
 def apply_op(op, acts, fin, n_nodes, depot_env, i, j):
@@ -74,6 +75,19 @@ def apply_op(op, acts, fin, n_nodes, depot_env, i, j):
     if op == "dup":
         t[i] = t[j]
         return t
+    if op in ("revisit", "revisit_own_route"):
+        # a customer served once more while nobody is missing (the length grows by the extra visit): inside an existing
+        # route, or as a route of its own at the end (always within the capacity)
+        cs = sorted({a for a in t if a != 0 or not depot_env})
+        if not cs:
+            return t
+        c = cs[j % len(cs)]
+        if op == "revisit":
+            t.insert(i, c)
+            return t
+        while depot_env and len(t) > 1 and t[-1] == 0:
+            t.pop()
+        return t + ([0, c] if depot_env else [c])
     if op == "swap":
         t[i], t[j] = t[j], t[i]
         return t
